@@ -271,6 +271,11 @@ func (ev *evaluator) ident(name string) Val {
 			return v
 		}
 	}
+	for _, p := range r.eng.allPkgs {
+		if p.Pkg.Name() == name {
+			return Val{K: KSpec, Sort: "pkg", S: name}
+		}
+	}
 	return ev.fail("unknown identifier %q", name)
 }
 
